@@ -5,7 +5,8 @@ open Pyc.Emit Pyc.Proto
 /-- requests (fields separated by ` ; `, pairs written `tag:value`, `_` = None):
     `cv <tag> <value|_> <later tags…> ; <kids>` → _correctValInNode (later = tags after <tag> in the schema order given)
     `redir <vertId> <vertRef> ; <sem:src>…`  → Geometry.save redirection
-    `emit <supported…> ; <p:v|p:_ …> ; <kids>` → Effect.save parameter loop -/
+    `emit <supported…> ; <p:v|p:_ …> ; <kids>` → Effect.save parameter loop
+    `attr <name> <value|_> ; <k:v>…` → _setAttribute on an element with these attributes -/
 def parsePairs (s : String) : Option (List (String × String)) :=
   (words s).mapM (fun w => match w.splitOn ":" with
     | [a, b] => some (a, b)
@@ -33,6 +34,10 @@ def handle (_ : Unit) (line : String) : Unit × String :=
         | none => none
       ((), showPairs (emitProps sup value ks))
     | _, _ => ((), "bad-op")
+  | [["attr", name, v], _], [_, attrs] =>
+    match parsePairs attrs with
+    | some as => ((), showPairs (setAttr as name (if v == "_" then none else some v)))
+    | none => ((), "bad-op")
   | _, _ => ((), "bad-op")
 
 def main : IO Unit := mainLoop () handle
